@@ -48,9 +48,9 @@ MODAL_FACTOR = 30.0        # x oracles.freq_direct.modal_route_bound (measured w
 CONDU_LIMIT = 1e8          # cond of the state-space eigenvectors beyond which SolveUnc's
                            # coupled route is not judged (pyYeti itself warns at 1/eps)
 SU_RELTOL_LIMIT = 1e-6     # ... and columns where that model allows more than this
-NSLICE = {"quick": 8, "thorough": 16}
-NBLOCK = {"quick": 384, "thorough": 9600}       # block systems per run
-NPHYS = {"quick": 192, "thorough": 4800}        # physical (pre_eig) systems per run
+NSLICE = {"quick": 16, "thorough": 16}
+NBLOCK = {"quick": 800, "thorough": 9600}       # block systems per run
+NPHYS = {"quick": 400, "thorough": 4800}        # physical (pre_eig) systems per run
 
 
 def shards(tier, seed):
